@@ -481,6 +481,9 @@ class PolyFacet:
             q = n.args[0].attr
             args = n.args[1:1 + n.attr[1]]
             kwn = n.attr[2]
+            if q in ("numpy.reshape", "numpy.expand_dims", "numpy.ravel", "numpy.atleast_2d", "numpy.atleast_3d",
+                     "numpy.broadcast_to") and args:
+                return self.of(args[0])         # layout only: every element keeps its value
             if q in CAST_FUNCS and args:
                 return self.of(args[0])
             if q == "numpy.clip" and self.domain_clip_transparent and len(args) == 3 and \
@@ -535,7 +538,12 @@ class PolyFacet:
             if (q.startswith("numpy.") or q.startswith("math.")) and short in FN_NAMES:
                 return self.apply_fn(short, [self.of(a) for a in args], n)
             return self.node_atom(n)
-        if op == "MCall" and n.attr[0] in ("copy", "astype", "squeeze") and n.args:
+        if op == "MCall" and n.attr[0] in ("copy", "astype", "squeeze", "reshape", "ravel", "flatten") and n.args:
+            if n.attr[0] == "astype" and len(n.args) > 1:
+                t_ = n.args[1]
+                tname = t_.attr if t_.op in ("Ext", "Const") and isinstance(t_.attr, str) else ""
+                if "int" in tname.lower() or "bool" in tname.lower() or tname in ("i4", "i8", "u1", "?"):
+                    return self.node_atom(n)        # truncation / truth value: not the same number
             return self.of(n.args[0])
         if op == "Attr" and n.attr == "T" and self.gather_transparent:
             return self.of(n.args[0])       # transposition does not change per-element algebra
